@@ -4,7 +4,6 @@ import (
 	"fmt"
 	"go/ast"
 	"go/constant"
-	"go/importer"
 	"go/printer"
 	"go/token"
 	"go/types"
@@ -84,13 +83,14 @@ func fromGoType(t types.Type) (ty, bool) {
 }
 
 type ftr struct {
-	fset  *token.FileSet
-	info  *types.Info
-	spec  FuncSpec
-	vars  map[string]ty // lean-visible variables (params and locals)
-	ret   ty
-	depth int
-	named string // the function's single named result, if it has one and the body refers to it ("" otherwise)
+	fset    *token.FileSet
+	info    *types.Info
+	spec    FuncSpec
+	vars    map[string]ty // lean-visible variables (params and locals)
+	ret     ty
+	depth   int
+	named   string // the function's single named result, if it has one and the body refers to it ("" otherwise)
+	retSeen int    // assignments to the retvar variable seen so far (retvar "name#k")
 }
 
 func exprText(fset *token.FileSet, e ast.Expr) string {
@@ -100,24 +100,12 @@ func exprText(fset *token.FileSet, e ast.Expr) string {
 }
 
 func translateFunc(repo string, fs FuncSpec) (string, error) {
-	var only []string
-	if fs.File != "" {
-		only = nil
+	ck := checkDir(repo, fs.Dir, fs.OnlyFiles)
+	if ck.err != nil {
+		return "", ck.err
 	}
-	fset, files, err := parseDir(repo, fs.Dir, only)
-	if err != nil {
-		return "", err
-	}
-	conf := types.Config{
-		Importer: &fakeImporter{def: importer.Default(), pkgs: map[string]*types.Package{}},
-		Error:    func(error) {},
-	}
-	info := &types.Info{
-		Defs:  map[*ast.Ident]types.Object{},
-		Uses:  map[*ast.Ident]types.Object{},
-		Types: map[ast.Expr]types.TypeAndValue{},
-	}
-	conf.Check(fs.Dir, fset, files, info)
+	fset, files, info := ck.fset, ck.files, ck.info
+	var err error
 
 	recv, name := "", fs.Func
 	if i := strings.Index(fs.Func, "."); i >= 0 {
@@ -143,6 +131,7 @@ func translateFunc(repo string, fs FuncSpec) (string, error) {
 	if fd == nil || fd.Body == nil {
 		return "", fmt.Errorf("function %s not found in %s", fs.Func, fs.Dir)
 	}
+	renameLeanKeywords(fd)
 	t := &ftr{fset: fset, info: info, spec: fs, vars: map[string]ty{}}
 	t.ret, err = parseTy(fs.Ret)
 	if err != nil {
@@ -193,7 +182,24 @@ func translateFunc(repo string, fs FuncSpec) (string, error) {
 			prelude = fmt.Sprintf("%slet %s : %s := %s\n", ind(1), id.Name, vt.lean(), zero)
 		}
 	}
-	body, err := t.stmts(fd.Body.List, 1)
+	list := fd.Body.List
+	if fs.InIf != "" {
+		ifBody, ifCond := findIf(fset, fd.Body, fs.InIf)
+		if ifBody == nil {
+			return "", fmt.Errorf("inif: no `if %s` in %s", fs.InIf, fs.Func)
+		}
+		list = ifBody.List
+		if fs.RetCond {
+			list = []ast.Stmt{&ast.ReturnStmt{Results: []ast.Expr{ifCond}}}
+		}
+	}
+	if fs.At != "" {
+		list = findStmt(fset, fd.Body, fs.At)
+		if list == nil {
+			return "", fmt.Errorf("at: no statement starting with `%s` in %s", fs.At, fs.Func)
+		}
+	}
+	body, err := t.stmts(list, 1)
 	if err != nil {
 		return "", err
 	}
@@ -244,6 +250,9 @@ func (t *ftr) stmts(list []ast.Stmt, d int) (string, error) {
 		return "", fmt.Errorf("control reaches end of function without return")
 	}
 	s, rest := list[0], list[1:]
+	if out, handled, err := t.tieStmt(s, rest, d); handled {
+		return out, err
+	}
 	switch s := s.(type) {
 	case *ast.ReturnStmt:
 		if len(s.Results) == 0 && t.named != "" {
@@ -294,7 +303,7 @@ func (t *ftr) stmts(list []ast.Stmt, d int) (string, error) {
 			return "", err
 		}
 		if t.spec.RetVar != "" && len(s.Lhs) == 1 {
-			if id, ok := s.Lhs[0].(*ast.Ident); ok && id.Name == t.spec.RetVar {
+			if id, ok := s.Lhs[0].(*ast.Ident); ok && t.retVarMatch(id.Name) {
 				e, err := t.coerce(id.Name, t.vars[id.Name], t.ret)
 				if err != nil {
 					return "", err
@@ -730,6 +739,15 @@ func (t *ftr) assign(s *ast.AssignStmt) (string, error) {
 		return fmt.Sprintf("let %s : %s := %s", id.Name, et.lean(), e), nil
 	case token.ASSIGN:
 		vt, ok := t.vars[id.Name]
+		if !ok && (t.spec.InIf != "" || t.spec.At != "") {
+			// inif: a variable declared outside the translated branch, first written here
+			if obj := t.info.Uses[id]; obj != nil {
+				if gt, isInt := fromGoType(obj.Type()); isInt && (gt.bool || gt.w != 0) {
+					vt, ok = gt, true
+					t.vars[id.Name] = gt
+				}
+			}
+		}
 		if !ok {
 			return "", fmt.Errorf("assignment to unknown variable %s", id.Name)
 		}
@@ -931,6 +949,9 @@ func (t *ftr) expr(e ast.Expr, hint ty) (string, ty, error) {
 				}
 				return t.convert(a, at, target), target, nil
 			}
+		}
+		if s, st, hit, err := t.endianRead(x); hit {
+			return s, st, err
 		}
 		return "", ty{}, fmt.Errorf("unsupported call %s", exprText(t.fset, x))
 	}
